@@ -60,8 +60,12 @@ func pipeOpts(mode string) gen.Opts {
 		return gen.Opts{MaxObjs: 2, MaxEdges: 1, Sequence: true, SpecialOnly: "sequence"}
 	case "near":
 		return gen.Opts{MaxObjs: 4, MaxEdges: 3, Containers: true, Near: true, SpecialOnly: "near", Sizes: true}
+	case "render-plain": // the same diagrams as "render" without special characters: the marker-free twin the SVG vocabulary is learnt from
+		o := pipeOpts("render")
+		o.Tricky = false
+		return o
 	case "render":
-		return gen.Opts{MaxObjs: 5, MaxEdges: 4, Tricky: true, Containers: true, Styles: true, Sizes: true, AllShapes: true, Markdown: true, Near: true, Icons: true, Classes: true}
+		return gen.Opts{MaxObjs: 5, MaxEdges: 4, Tricky: true, Tooltips: true, Containers: true, Styles: true, Sizes: true, AllShapes: true, Markdown: true, Near: true, Icons: true, Classes: true}
 	}
 	return gen.Opts{MaxObjs: 5, MaxEdges: 3, Containers: true}
 }
